@@ -267,28 +267,28 @@ macro_rules! actor_harness {
     };
 }
 
-// @verif prop=C03,C02,C05 tier=quick timeout=400 mem=24 unwind=10 unwindset=drop_glue::<\[.*Stakker\)>\]>\.0$:4
+// @verif prop=C03,C02,C05 tier=quick timeout=1200 mem=24 unwind=10 unwindset=drop_glue::<\[.*Stakker\)>\]>\.0$:4
 // @enc Actor::terminate Actor::to_ready ActorRc::{new,to_zombie,to_ready,is_prep,is_zombie,borrow_prep,borrow_ready} CountAndState::set_state Ret::{new,ret,drop}
 // @sym two termination requests: cause in {Stopped, Failed(e), Killed(e), Dropped} x payload
 // @bound Prep actor with 2 held calls: terminate, terminate, to_ready
 // @stub std::hash::RandomState::new -> fixed keys
 // @assume multi-stakker,no-unsafe-queue build (packed ActorRc, QCell owner, inline deferrer)
 actor_harness!(act_prep_terminate_twice, prep_terminate_twice);
-// @verif prop=C03,C02 tier=quick timeout=400 mem=24 unwind=10 unwindset=drop_glue::<\[.*Stakker\)>\]>\.0$:4
+// @verif prop=C03,C02,C04 tier=quick timeout=1200 mem=24 unwind=10 unwindset=drop_glue::<\[.*Stakker\)>\]>\.0$:4
 // @enc as act_prep_terminate_twice, plus Prep queue flush (FnOnceQueue::execute inside to_ready)
 // @sym two termination requests (cause x payload)
 // @bound Prep actor with 3 held calls: to_ready, terminate, terminate
 // @stub std::hash::RandomState::new -> fixed keys
 // @assume multi-stakker,no-unsafe-queue build
 actor_harness!(act_ready_then_terminate, ready_then_terminate);
-// @verif prop=C03,C18 tier=quick timeout=400 mem=24 unwind=10 unwindset=drop_glue::<\[.*Stakker\)>\]>\.0$:4
+// @verif prop=C03,C18 tier=quick timeout=1200 mem=24 unwind=10 unwindset=drop_glue::<\[.*Stakker\)>\]>\.0$:4
 // @enc ActorRc::to_ready (state word vs queue flush order) Actor::terminate
 // @sym none (fixed script)
 // @bound Prep actor with 3 held calls, the second of which stops the actor while to_ready flushes the queue
 // @stub std::hash::RandomState::new -> fixed keys
 // @assume multi-stakker,no-unsafe-queue build
 actor_harness!(act_stop_during_flush, stop_during_flush);
-// @verif prop=C02,C03 tier=quick timeout=400 mem=24 unwind=10 unwindset=drop_glue::<\[.*Stakker\)>\]>\.0$:4
+// @verif prop=C02,C03 tier=quick timeout=1200 mem=24 unwind=10 unwindset=drop_glue::<\[.*Stakker\)>\]>\.0$:4
 // @enc Actor::{apply_prep,terminate,to_ready} Cx::{new,stop,fail} ActorRc::*
 // @sym init outcome: {returns a value or not} x {fails or not}
 // @bound one held call; one Prep call; then Prep-style calls in Ready / Zombie / Prep
@@ -377,7 +377,7 @@ fn log_open_close() {
     std::mem::forget(a);
     std::mem::forget(s);
 }
-// @verif prop=C20,C03 tier=quick features=multi-stakker,no-unsafe-queue,logger timeout=500 mem=24 unwind=10 unwindset=drop_glue::<\[.*Stakker\)>\]>\.0$:4
+// @verif prop=C20,C03 tier=quick features=multi-stakker,no-unsafe-queue,logger timeout=1200 mem=24 unwind=10 unwindset=drop_glue::<\[.*Stakker\)>\]>\.0$:4
 // @enc ActorRc::new (log_span_open) Actor::terminate Actor::log_termination Core::{log_span_open,log_span_close,log} Stakker::set_logger
 // @sym parent id; whether the actor became Ready; two termination requests (cause x payload)
 // @bound one actor: create, optional to_ready, terminate twice
